@@ -38,6 +38,13 @@ def build(tier):
         nb = 5 if q else 8
         src += hgen.cond(name, "b0: int, b1: int, bs: int", [f"0 <= b0 < {nb} and 0 <= b1 < {nb}", "bs == 1" if q else "1 <= bs <= 2"], f"L.data_independent({verb!r}, b0, b1, bs)", sig="hb.KEY")
         conds += [Cond(name, "prop", T, group="byte-values"), Cond(name + "__twin", "twin", 60, group="byte-values")]
+    # the same transfers on a backend whose calls suspend (every backend call takes lat virtual ms), as AsyncPathIO's do:
+    # the completion reply must not be written before the file is closed, and everything above must still hold
+    for verb in ("stor", "appe", "retr"):
+        name = f"{verb}_slow"
+        src += hgen.cond(name, "n: int, oi: int, li: int, lat: int", [f"0 <= n <= {2 if q else nmax}", f"0 <= oi < {len(offs)} and 0 <= li < {len(olds)}", f"1 <= lat <= {1 if q else 3}"],
+                         f"L.transfer_slow({verb!r}, n, OFFS[L.hb.conc(oi, 0, {len(offs) - 1})], OLDS[L.hb.conc(li, 0, {len(olds) - 1})], lat)", sig="hb.KEY")
+        conds += [Cond(name, "prop", T, group="slow-backend"), Cond(name + "__twin", "twin", 60, group="slow-backend")]
     # end to end: the real client's copy loops, get_stream (TYPE, EPSV, REST, command) and finish()
     for kind in ("upload", "append", "download", "download_read"):
         for off in (0, 2):
@@ -62,6 +69,8 @@ def build(tier):
         bounds={
             "server side (real dispatcher, scripted data socket)": f"payload length 0..{nmax}, server block size 1..{bsmax}, restart offset in {offs} (issued by a real REST command), old file absent or of length {olds[1:]}, "
                                                                    f"network segmentation point 0..n, the first {'one' if q else 'two'} short reads of the data socket of symbolic size 1..block; all-distinct byte pattern",
+            "slow backend": f"the same three verbs with every backend call suspending for 1..{1 if q else 3} virtual ms (MemoryPathIO semantics, AsyncPathIO timing): payload 0..{2 if q else nmax}, all offsets and old lengths above; "
+                            "additionally the 226 must not be written before the stored file's close() has completed",
             "byte values": f"2 payload / content bytes over {L.SPECIAL} (NUL, LF, CR, IAC, SUB, DEL, ...): Mode A, io.BytesIO realises symbolic bytes",
             "end to end (real Client over SimNet)": f"upload_stream / append_stream / download_stream (drained by iter_by_block, by read() to end of stream, and by read(n) until empty), payload 0..{2 if q else 4}, client and server block sizes 1..2, offset in (0, 2), old file absent / 3 bytes, network delivering whole writes or single bytes",
         },
